@@ -1,12 +1,1110 @@
 /-
   C04 — corrupt or hostile input is contained; failed ingestion leaves no trace.
-  (work in progress: theorems are added below)
+
+  Model: Model/Ingest.lean (its constants and the guards it depends on come from Gen/Ingest.lean, regenerated
+  from /repo on every run).  zlib (`inflate`), the hash (`H`), zlib.compress (`deflate`) and the object-content
+  parser (`valid`) are parameters; what is assumed about them is an explicit hypothesis of the theorem that
+  needs it.  Only property theorems, non-vacuity examples and negation witnesses live here.
 -/
 import DulwichModel.Model.Ingest
 
 namespace Dulwich.Props.C04
 open Dulwich Dulwich.Ingest
 
-theorem ofs_zero_check_present : Gen.Ingest.ofsZeroRejected = true := rfl
+/-- What is assumed of zlib where a theorem needs it: the unread rest it reports is not longer than what it was given. -/
+def InflateShrinks (inflate : Inflate) : Prop :=
+  ∀ i o r, inflate i = some (o, r) → r.length ≤ i.length
+
+/-! ## 1. framing: progress, totality, the guards -/
+
+theorem takeMsb_shrinks : ∀ (inp raw rest : Bytes), takeMsb inp = some (raw, rest) →
+    rest.length < inp.length ∧ 1 ≤ raw.length := by
+  intro inp
+  induction inp with
+  | nil => intro raw rest h; simp [takeMsb] at h
+  | cons b bs ih =>
+    intro raw rest h
+    simp only [takeMsb] at h
+    split at h
+    · simp only [Option.some.injEq, Prod.mk.injEq] at h
+      obtain ⟨rfl, rfl⟩ := h
+      simp
+    · split at h
+      · cases h
+      · rename_i bs' r hrec
+        simp only [Option.some.injEq, Prod.mk.injEq] at h
+        obtain ⟨rfl, rfl⟩ := h
+        have := ih _ _ hrec
+        simp only [List.length_cons]
+        omega
+
+theorem inflateSized_spec {inflate : Inflate} {size : Nat} {inp out rest : Bytes}
+    (h : inflateSized inflate size inp = .ok (out, rest)) :
+    inflate inp = some (out, rest) ∧ out.length = size ∧ rest ≠ [] := by
+  have hs : Gen.Ingest.zlibSizeChecked = true := rfl
+  unfold inflateSized at h
+  split at h
+  · cases h
+  · split at h
+    · cases h
+    · rename_i o r hi
+      simp only [hs, Bool.true_and] at h
+      split at h
+      · cases h
+      · rename_i hsz
+        split at h
+        · cases h
+        · rename_i hne
+          simp only [Except.ok.injEq, Prod.mk.injEq] at h
+          obtain ⟨rfl, rfl⟩ := h
+          refine ⟨hi, ?_, ?_⟩
+          · simpa using hsz
+          · intro hn; apply hne; simp [hn]
+
+/-- **Size header vs payload.**  An entry is accepted only if the stream inflates to exactly the declared size
+and at least one byte follows it (as coded: the reader waits for zlib to report unused data). -/
+theorem size_header_agrees {inflate : Inflate} {size : Nat} {inp out rest : Bytes}
+    (h : inflateSized inflate size inp = .ok (out, rest)) : out.length = size ∧ rest ≠ [] :=
+  ⟨(inflateSized_spec h).2.1, (inflateSized_spec h).2.2⟩
+
+/-- **Progress.**  Every entry consumes at least one byte, whatever zlib does with the payload. -/
+theorem parse_progress {inflate : Inflate} (hz : InflateShrinks inflate) {off : Nat} {inp rest : Bytes} {e : Entry}
+    (h : parseEntry inflate off inp = .ok (e, rest)) : rest.length < inp.length := by
+  unfold parseEntry at h
+  split at h
+  · cases h
+  · rename_i raw r1 h1
+    have l1 := (takeMsb_shrinks _ _ _ h1).1
+    simp only at h
+    split at h
+    · split at h
+      · cases h
+      · rename_i raw2 r2 h2
+        have l2 := (takeMsb_shrinks _ _ _ h2).1
+        split at h
+        · cases h
+        · split at h
+          · cases h
+          · rename_i d r3 h3
+            simp only [Except.ok.injEq, Prod.mk.injEq] at h
+            obtain ⟨_, rfl⟩ := h
+            have := hz _ _ _ (inflateSized_spec h3).1
+            omega
+    · split at h
+      · split at h
+        · cases h
+        · split at h
+          · cases h
+          · rename_i d r3 h3
+            simp only [Except.ok.injEq, Prod.mk.injEq] at h
+            obtain ⟨_, rfl⟩ := h
+            have := hz _ _ _ (inflateSized_spec h3).1
+            simp only [List.length_drop] at this
+            omega
+      · split at h
+        · cases h
+        · rename_i d r3 h3
+          simp only [Except.ok.injEq, Prod.mk.injEq] at h
+          obtain ⟨_, rfl⟩ := h
+          have := hz _ _ _ (inflateSized_spec h3).1
+          omega
+
+/-- **OFS offset 0 is rejected** (and so is every offset the varint cannot produce): an OFS_DELTA entry that
+the parser yields has `k ≥ 1`, i.e. its base lies strictly before it.  Depends on the guard the translator
+found in `_decode_delta_base_offset` (`Gen.Ingest.ofsZeroRejected`). -/
+theorem parse_ofs_pos {inflate : Inflate} {off : Nat} {inp rest : Bytes} {o k : Nat} {d : Bytes}
+    (h : parseEntry inflate off inp = .ok (⟨o, .ofs k d⟩, rest)) : 1 ≤ k := by
+  have hg : Gen.Ingest.ofsZeroRejected = true := rfl
+  unfold parseEntry at h
+  split at h
+  · cases h
+  · simp only at h
+    split at h
+    · split at h
+      · cases h
+      · simp only [hg, Bool.true_and] at h
+        split at h
+        · cases h
+        · rename_i hk
+          split at h
+          · cases h
+          · simp only [Except.ok.injEq, Prod.mk.injEq, Entry.mk.injEq, Kind.ofs.injEq] at h
+            obtain ⟨⟨_, rfl, _⟩, _⟩ := h
+            simp only [beq_iff_eq] at hk
+            omega
+    · split at h
+      · split at h
+        · cases h
+        · split at h
+          · cases h
+          · simp at h
+      · split at h
+        · cases h
+        · simp at h
+
+/-- The object loop is a total function of the input: with `fuel > inp.length` it never runs out of fuel —
+the number of iterations is bounded by the length of the remaining input, NOT by the (attacker-chosen,
+up to 2^32-1) object count. -/
+theorem parseEntries_no_fuel {inflate : Inflate} (hz : InflateShrinks inflate) (total : Nat) :
+    ∀ (fuel count : Nat) (inp : Bytes), inp.length < fuel →
+      parseEntries inflate total fuel count inp ≠ .error .fuel := by
+  intro fuel
+  induction fuel with
+  | zero => intro count inp h; omega
+  | succ fuel ih =>
+    intro count inp hf
+    cases count with
+    | zero => simp [parseEntries]
+    | succ count =>
+      simp only [parseEntries]
+      split
+      · rename_i e he
+        intro hc
+        simp only [Except.error.injEq] at hc
+        subst hc
+        -- parseEntry never reports `.fuel`
+        unfold parseEntry at he
+        split at he
+        · cases he
+        · simp only at he
+          split at he
+          · split at he
+            · cases he
+            · split at he
+              · cases he
+              · split at he
+                · rename_i e' hi
+                  simp only [Except.error.injEq] at he; subst he
+                  unfold inflateSized at hi
+                  split at hi
+                  · cases hi
+                  · split at hi
+                    · cases hi
+                    · split at hi
+                      · cases hi
+                      · split at hi <;> cases hi
+                · cases he
+          · split at he
+            · split at he
+              · cases he
+              · split at he
+                · rename_i e' hi
+                  simp only [Except.error.injEq] at he; subst he
+                  unfold inflateSized at hi
+                  split at hi
+                  · cases hi
+                  · split at hi
+                    · cases hi
+                    · split at hi
+                      · cases hi
+                      · split at hi <;> cases hi
+                · cases he
+            · split at he
+              · rename_i e' hi
+                simp only [Except.error.injEq] at he; subst he
+                unfold inflateSized at hi
+                split at hi
+                · cases hi
+                · split at hi
+                  · cases hi
+                  · split at hi
+                    · cases hi
+                    · split at hi <;> cases hi
+              · cases he
+      · rename_i e rest he
+        have hl := parse_progress hz he
+        have := ih count rest (by omega)
+        split
+        · rename_i e' he'
+          intro hc
+          simp only [Except.error.injEq] at hc
+          subst hc
+          exact this he'
+        · simp
+
+/-- **parse_total.**  `parsePackStream` is a total function on every byte string and every outcome is one the
+real reader has: entries, or a format / delta (OFS offset 0) / checksum error — never "out of fuel". -/
+theorem parse_total {inflate : Inflate} (hz : InflateShrinks inflate) (H : Hash) (inp : Bytes) :
+    parsePackStream inflate H inp ≠ .error .other := by
+  unfold parsePackStream
+  split
+  · rename_i e he
+    intro hc
+    simp only [Except.error.injEq] at hc
+    subst hc
+    unfold parseHeader at he
+    split at he
+    · cases he
+    · split at he
+      · cases he
+      · split at he <;> cases he
+  · rename_i count _
+    simp only
+    split
+    · rename_i e he
+      intro hc
+      simp only [Except.error.injEq] at hc
+      have hnf := parseEntries_no_fuel hz inp.length ((inp.drop Gen.Ingest.packHeaderLen).length + 1) count
+        (inp.drop Gen.Ingest.packHeaderLen) (by omega)
+      cases e with
+      | fuel => exact hnf he
+      | hdr => cases hc
+      | zlib => cases hc
+      | delta => cases hc
+    · unfold checkTrailer
+      split
+      · split <;> simp
+      · simp
+
+/-- The same for the buffer reader (`PackData` + `iter_unpacked`). -/
+theorem parse_data_total {inflate : Inflate} (hz : InflateShrinks inflate) (inp : Bytes) :
+    parsePackData inflate inp ≠ .error .other := by
+  unfold parsePackData parsePackDataX
+  split
+  · rename_i e he
+    intro hc
+    simp only [Except.error.injEq] at hc
+    split at he
+    · simp only [Except.error.injEq] at he; subst he; cases hc
+    · split at he
+      · simp only [Except.error.injEq] at he; subst he; cases hc
+      · rename_i count _
+        have hnf := parseEntries_no_fuel hz inp.length ((inp.drop Gen.Ingest.packHeaderLen).length + 1) count
+          (inp.drop Gen.Ingest.packHeaderLen) (by omega)
+        cases e with
+        | fuel => exact hnf he
+        | hdr => cases hc
+        | zlib => cases hc
+        | delta => cases hc
+  · simp
+
+/-- **Object count too high.**  A stream is accepted only if it really contains `count` entries, and `count`
+entries need at least `count` bytes: the header cannot promise more objects than the input has bytes. -/
+theorem parse_count_bound {inflate : Inflate} (hz : InflateShrinks inflate) (total : Nat) :
+    ∀ (fuel count : Nat) (inp rest : Bytes) (es : List Entry),
+      parseEntries inflate total fuel count inp = .ok (es, rest) →
+      es.length = count ∧ count + rest.length ≤ inp.length := by
+  intro fuel
+  induction fuel with
+  | zero =>
+    intro count inp rest es h
+    cases count with
+    | zero => simp only [parseEntries, Except.ok.injEq, Prod.mk.injEq] at h; obtain ⟨rfl, rfl⟩ := h; simp
+    | succ c => simp [parseEntries] at h
+  | succ fuel ih =>
+    intro count inp rest es h
+    cases count with
+    | zero => simp only [parseEntries, Except.ok.injEq, Prod.mk.injEq] at h; obtain ⟨rfl, rfl⟩ := h; simp
+    | succ c =>
+      simp only [parseEntries] at h
+      split at h
+      · cases h
+      · rename_i e r he
+        split at h
+        · cases h
+        · rename_i es' r' hrec
+          simp only [Except.ok.injEq, Prod.mk.injEq] at h
+          obtain ⟨rfl, rfl⟩ := h
+          have hl := parse_progress hz he
+          have := ih c r r' es' hrec
+          simp only [List.length_cons]
+          omega
+
+/-- **Wrong trailer.**  An accepted stream carries, right after the bytes read from the wire, the hash of those
+bytes (the whole input once an object was read; header + 20 bytes for an empty pack). -/
+theorem stream_trailer_verified {inflate : Inflate} {H : Hash} {inp : Bytes} {es : List Entry}
+    (h : parsePackStream inflate H inp = .ok es) :
+    ∃ count, parseHeader inp = .ok count ∧
+      lastN Gen.Ingest.oidLen (streamConsumed count inp) = H (butLastN Gen.Ingest.oidLen (streamConsumed count inp)) := by
+  have hv : Gen.Ingest.trailerVerified = true := rfl
+  unfold parsePackStream at h
+  split at h
+  · cases h
+  · rename_i count hc
+    refine ⟨count, hc, ?_⟩
+    simp only at h
+    split at h
+    · cases h
+    · unfold checkTrailer at h
+      simp only [hv, Bool.true_and] at h
+      split at h
+      · split at h <;> cases h
+      · rename_i hne
+        simpa using hne
+
+/-! ## 2. forward chaining: terminates, resolves each entry at most once, names are hashes -/
+
+/-- A work item as `resolveAll` builds them: full entries without a base, deltas with one. -/
+def WorkOK (w : Work) : Prop :=
+  match w with
+  | (⟨_, .full _ _⟩, none) => True
+  | (⟨_, .ofs _ _⟩, some _) => True
+  | (⟨_, .ref _ _⟩, some _) => True
+  | _ => False
+
+theorem resolveOne_hash {H : Hash} {valid : Obj → Bool} {w : Work} {o : Obj}
+    (h : resolveOne H valid w = .ok o) : HashOK H o := by
+  have mk : ∀ ty data, (match mkObj H ty data with
+      | none => Except.error Err.format
+      | some o => if valid o then Except.ok o else Except.error Err.format) = .ok o → HashOK H o := by
+    intro ty data hm
+    split at hm
+    · cases hm
+    · rename_i o' ho'
+      split at hm
+      · simp only [Except.ok.injEq] at hm
+        subst hm
+        unfold mkObj at ho'
+        simp only [Option.map_eq_some_iff] at ho'
+        obtain ⟨hd, hh, rfl⟩ := ho'
+        exact ⟨hd, hh, rfl⟩
+      · cases hm
+  have app : ∀ ty base d, (match Delta.applyDelta base d with
+      | .error _ => Except.error Err.delta
+      | .ok data =>
+        if Gen.Ingest.emptyGuard && ty != Gen.Ingest.blobType && data.isEmpty then Except.error Err.delta
+        else (match mkObj H ty data with
+          | none => Except.error Err.format
+          | some o => if valid o then Except.ok o else Except.error Err.format)) = .ok o → HashOK H o := by
+    intro ty base d ha
+    split at ha
+    · cases ha
+    · split at ha
+      · cases ha
+      · exact mk _ _ ha
+  unfold resolveOne at h
+  simp only at h
+  split at h
+  · exact mk _ _ h
+  · exact app _ _ _ h
+  · exact app _ _ _ h
+  · cases h
+
+theorem resolveOne_no_other {H : Hash} {valid : Obj → Bool} {w : Work} (hw : WorkOK w) :
+    resolveOne H valid w ≠ .error .other := by
+  have mk : ∀ ty data, (match mkObj H ty data with
+      | none => Except.error Err.format
+      | some o => if valid o then Except.ok o else Except.error Err.format) ≠ .error .other := by
+    intro ty data
+    split
+    · simp
+    · split <;> simp
+  have app : ∀ ty base d, (match Delta.applyDelta base d with
+      | .error _ => Except.error Err.delta
+      | .ok data =>
+        if Gen.Ingest.emptyGuard && ty != Gen.Ingest.blobType && data.isEmpty then Except.error Err.delta
+        else (match mkObj H ty data with
+          | none => Except.error Err.format
+          | some o => if valid o then Except.ok o else Except.error Err.format)) ≠ .error .other := by
+    intro ty base d
+    split
+    · simp
+    · split
+      · simp
+      · exact mk _ _
+  unfold resolveOne
+  simp only
+  split
+  · exact mk _ _
+  · exact app _ _ _
+  · exact app _ _ _
+  · rename_i h1 h2 h3
+    exfalso
+    obtain ⟨⟨off, k⟩, b⟩ := w
+    cases k with
+    | full ty data => cases b with
+      | none => exact h1 off ty data rfl
+      | some _ => exact hw
+    | ofs kk d => cases b with
+      | none => exact hw
+      | some tb => exact h2 off kk d tb.1 tb.2 rfl
+    | ref n d => cases b with
+      | none => exact hw
+      | some tb => exact h3 off n d tb.1 tb.2 rfl
+
+/-- Splitting `pending` into the entries a resolved object unblocks and the rest loses nothing and duplicates
+nothing (an entry is an OFS delta or a REF delta, never both). -/
+theorem unblock_partition (off : Nat) (name : Bytes) : ∀ (pending : List Entry),
+    (pending.filter (isOfsFor off) ++ pending.filter (isRefFor name)).length
+      + (pending.filter fun e => !(isOfsFor off e || isRefFor name e)).length = pending.length := by
+  intro pending
+  induction pending with
+  | nil => simp
+  | cons e es ih =>
+    have hex : ¬ (isOfsFor off e = true ∧ isRefFor name e = true) := by
+      intro ⟨h1, h2⟩
+      unfold isOfsFor at h1
+      unfold isRefFor at h2
+      cases hk : e.kind <;> simp [hk] at h1 h2
+    simp only [List.filter_cons, List.length_append] at ih ⊢
+    by_cases h1 : isOfsFor off e = true
+    · have h2 : isRefFor name e = false := by
+        cases hh : isRefFor name e
+        · rfl
+        · exact absurd ⟨h1, hh⟩ hex
+      simp only [h1, h2, Bool.or_false, Bool.not_true, if_true, List.length_cons, Bool.false_eq_true, if_false]
+      omega
+    · have h1' : isOfsFor off e = false := by simpa using h1
+      by_cases h2 : isRefFor name e = true
+      · simp only [h1', h2, Bool.false_or, Bool.not_true, Bool.false_eq_true, if_false, if_true, List.length_cons]
+        omega
+      · have h2' : isRefFor name e = false := by simpa using h2
+        simp only [h1', h2', Bool.or_false, Bool.not_false, Bool.false_eq_true, if_false, if_true, List.length_cons]
+        omega
+
+theorem filter_split {α : Type} (p : α → Bool) (l : List α) :
+    (l.filter p).length + (l.filter fun x => !p x).length = l.length := by
+  induction l with
+  | nil => simp
+  | cons a l ih =>
+    simp only [List.filter_cons]
+    by_cases h : p a = true
+    · simp only [h, if_true, Bool.not_true, Bool.false_eq_true, if_false, List.length_cons]; omega
+    · have : p a = false := by simpa using h
+      simp only [this, Bool.false_eq_true, if_false, Bool.not_false, if_true, List.length_cons]; omega
+
+/-- Invariants of `_follow_chain`, all at once.  With `fuel ≥ |todo| + |pending|`:
+never out of fuel; every object is yielded with the hash of its header ++ data as its name; `pending` only
+shrinks; yielded + still-pending never exceeds what there was (each entry is resolved AT MOST ONCE), with
+equality when the walk was not stopped by an error. -/
+theorem chainLoop_inv (H : Hash) (valid : Obj → Bool) : ∀ (fuel : Nat) (todo : List Work) (pending : List Entry) (acc : List Obj),
+    todo.length + pending.length ≤ fuel → (∀ w ∈ todo, WorkOK w) → (∀ e ∈ pending, isFull e = false) →
+    (∀ o ∈ acc, HashOK H o) →
+    (chainLoop H valid fuel todo pending acc).2.2 ≠ some .other ∧
+    (∀ o ∈ (chainLoop H valid fuel todo pending acc).1, HashOK H o) ∧
+    (∀ e ∈ (chainLoop H valid fuel todo pending acc).2.1, isFull e = false) ∧
+    (chainLoop H valid fuel todo pending acc).2.1.length ≤ pending.length ∧
+    (chainLoop H valid fuel todo pending acc).1.length + (chainLoop H valid fuel todo pending acc).2.1.length
+      ≤ acc.length + todo.length + pending.length ∧
+    ((chainLoop H valid fuel todo pending acc).2.2 = none →
+      (chainLoop H valid fuel todo pending acc).1.length + (chainLoop H valid fuel todo pending acc).2.1.length
+        = acc.length + todo.length + pending.length) := by
+  intro fuel
+  induction fuel with
+  | zero =>
+    intro todo pending acc hf hw hp ha
+    cases todo with
+    | nil => simp [chainLoop]; exact ⟨ha, hp⟩
+    | cons w t => simp at hf
+  | succ fuel ih =>
+    intro todo pending acc hf hw hp ha
+    cases todo with
+    | nil => simp [chainLoop]; exact ⟨ha, hp⟩
+    | cons w t =>
+      simp only [chainLoop]
+      split
+      · rename_i e he
+        refine ⟨?_, ha, hp, Nat.le_refl _, by simp only [List.length_cons]; omega, by intro h; cases h⟩
+        intro hc
+        simp only [Option.some.injEq] at hc
+        subst hc
+        exact resolveOne_no_other (hw w (List.mem_cons_self)) he
+      · rename_i o ho
+        have hpart := unblock_partition w.1.off o.name pending
+        have hdelta : ∀ e ∈ (pending.filter (isOfsFor w.1.off) ++ pending.filter (isRefFor o.name)), isFull e = false := by
+          intro e he
+          simp only [List.mem_append, List.mem_filter] at he
+          rcases he with ⟨h, _⟩ | ⟨h, _⟩ <;> exact hp e h
+        have := ih
+          (((pending.filter (isOfsFor w.1.off) ++ pending.filter (isRefFor o.name)).map fun e => (e, some (o.ty, o.data))).reverse ++ t)
+          (pending.filter fun e => !(isOfsFor w.1.off e || isRefFor o.name e)) (acc ++ [o])
+          (by
+            simp only [List.length_append, List.length_reverse, List.length_map, List.length_cons] at hf hpart ⊢
+            omega)
+          (by
+            intro w' hw'
+            simp only [List.mem_append, List.mem_reverse, List.mem_map] at hw'
+            rcases hw' with ⟨e, he, rfl⟩ | h
+            · have hd := hdelta e (by simpa using he)
+              obtain ⟨eo, ek⟩ := e
+              cases ek with
+              | full _ _ => simp [isFull] at hd
+              | ofs _ _ => trivial
+              | ref _ _ => trivial
+            · exact hw w' (List.mem_cons_of_mem _ h))
+          (by
+            intro e he
+            exact hp e (List.mem_filter.mp he).1)
+          (by
+            intro o' ho'
+            simp only [List.mem_append, List.mem_singleton] at ho'
+            rcases ho' with h | rfl
+            · exact ha o' h
+            · exact resolveOne_hash ho)
+        obtain ⟨h1, h2, h3, hm, h4, h5⟩ := this
+        have hfl : (pending.filter fun e => !(isOfsFor w.1.off e || isRefFor o.name e)).length ≤ pending.length :=
+          List.length_filter_le _ _
+        refine ⟨h1, h2, h3, by omega, ?_, ?_⟩
+        · simp only [List.length_append, List.length_reverse, List.length_map, List.length_cons, List.length_nil] at h4 hpart ⊢
+          omega
+        · intro hn
+          have := h5 hn
+          simp only [List.length_append, List.length_reverse, List.length_map, List.length_cons, List.length_nil] at this hpart ⊢
+          omega
+
+/-- Number of `full` jobs (each of them resolves one more entry than was pending). -/
+def nFull : List Job → Nat
+  | [] => 0
+  | .full _ :: js => nFull js + 1
+  | .ext _ :: js => nFull js
+
+/-- The same invariants for the outer loops of `_walk_all_chains` (full objects, then external bases). -/
+theorem runJobs_inv (H : Hash) (valid : Obj → Bool) (ext : Bytes → Option (Nat × Bytes)) (fuel : Nat) :
+    ∀ (jobs : List Job) (pending : List Entry) (acc : List Obj),
+    nFull jobs + pending.length ≤ fuel → (∀ j ∈ jobs, ∀ e, j = .full e → isFull e = true) →
+    (∀ e ∈ pending, isFull e = false) → (∀ o ∈ acc, HashOK H o) →
+    (runJobs H valid ext fuel jobs pending acc).2.2 ≠ some .other ∧
+    (∀ o ∈ (runJobs H valid ext fuel jobs pending acc).1, HashOK H o) ∧
+    (∀ e ∈ (runJobs H valid ext fuel jobs pending acc).2.1, isFull e = false) ∧
+    (runJobs H valid ext fuel jobs pending acc).2.1.length ≤ pending.length ∧
+    (runJobs H valid ext fuel jobs pending acc).1.length + (runJobs H valid ext fuel jobs pending acc).2.1.length
+      ≤ acc.length + nFull jobs + pending.length ∧
+    ((runJobs H valid ext fuel jobs pending acc).2.2 = none →
+      (runJobs H valid ext fuel jobs pending acc).1.length + (runJobs H valid ext fuel jobs pending acc).2.1.length
+        = acc.length + nFull jobs + pending.length) := by
+  intro jobs
+  induction jobs with
+  | nil => intro pending acc _ _ hp ha; simp [runJobs, nFull]; exact ⟨ha, hp⟩
+  | cons j js ih =>
+    intro pending acc hf hj hp ha
+    -- one job
+    have hone : (runJob H valid ext fuel j pending acc).2.2 ≠ some .other ∧
+        (∀ o ∈ (runJob H valid ext fuel j pending acc).1, HashOK H o) ∧
+        (∀ e ∈ (runJob H valid ext fuel j pending acc).2.1, isFull e = false) ∧
+        (runJob H valid ext fuel j pending acc).2.1.length ≤ pending.length ∧
+        (runJob H valid ext fuel j pending acc).1.length + (runJob H valid ext fuel j pending acc).2.1.length
+          ≤ acc.length + nFull [j] + pending.length ∧
+        ((runJob H valid ext fuel j pending acc).2.2 = none →
+          (runJob H valid ext fuel j pending acc).1.length + (runJob H valid ext fuel j pending acc).2.1.length
+            = acc.length + nFull [j] + pending.length) := by
+      cases j with
+      | full e =>
+        have hfull := hj (.full e) (List.mem_cons_self) e rfl
+        have := chainLoop_inv H valid fuel [(e, none)] pending acc
+          (by simp only [nFull, List.length_cons, List.length_nil] at hf ⊢; omega)
+          (by
+            intro w hw
+            simp only [List.mem_singleton] at hw
+            subst hw
+            obtain ⟨eo, ek⟩ := e
+            cases ek with
+            | full _ _ => trivial
+            | ofs _ _ => simp [isFull] at hfull
+            | ref _ _ => simp [isFull] at hfull)
+          hp ha
+        simpa [runJob, nFull] using this
+      | ext name =>
+        simp only [runJob, nFull]
+        cases hext : ext name with
+        | none => simp; exact ⟨ha, hp⟩
+        | some base =>
+          simp only
+          have hsplit := filter_split (isRefFor name) pending
+          have := chainLoop_inv H valid fuel ((pending.filter (isRefFor name)).map fun e => (e, some base))
+            (pending.filter fun e => !isRefFor name e) acc
+            (by simp only [List.length_map, nFull] at hf ⊢; omega)
+            (by
+              intro w hw
+              simp only [List.mem_map, List.mem_filter] at hw
+              obtain ⟨e, ⟨he, hr⟩, rfl⟩ := hw
+              obtain ⟨eo, ek⟩ := e
+              cases ek with
+              | full _ _ => simp [isRefFor] at hr
+              | ofs _ _ => trivial
+              | ref _ _ => trivial)
+            (by intro e he; exact hp e (List.mem_filter.mp he).1)
+            ha
+          simp only [List.length_map] at this
+          obtain ⟨h1, h2, h3, hm, h4, h5⟩ := this
+          refine ⟨h1, h2, h3, by omega, by omega, ?_⟩
+          intro hn
+          have := h5 hn
+          omega
+    simp only [runJobs]
+    generalize hr : runJob H valid ext fuel j pending acc = r at hone
+    obtain ⟨acc', pending', err⟩ := r
+    simp only at hone
+    obtain ⟨h1, h2, h3, hm, h4, h5⟩ := hone
+    have hnf : nFull (j :: js) = nFull [j] + nFull js := by
+      cases j <;> simp [nFull] <;> omega
+    cases err with
+    | some e =>
+      simp only
+      refine ⟨h1, h2, h3, hm, ?_, by intro h; cases h⟩
+      rw [hnf]
+      omega
+    | none =>
+      simp only
+      have hlen := h5 rfl
+      have hfuel : nFull js + pending'.length ≤ fuel := by
+        rw [hnf] at hf
+        omega
+      have := ih pending' acc' hfuel (fun j' hj' => hj j' (List.mem_cons_of_mem _ hj')) h3 h2
+      obtain ⟨g1, g2, g3, gm, g4, g5⟩ := this
+      refine ⟨g1, g2, g3, by omega, ?_, ?_⟩
+      · rw [hnf]; omega
+      · intro hn; have := g5 hn; rw [hnf]; omega
+
+theorem nFull_map_full (l : List Entry) : nFull (l.map Job.full) = l.length := by
+  induction l with
+  | nil => rfl
+  | cons a l ih => simp [nFull, ih]
+
+theorem nFull_map_ext (l : List Bytes) : nFull (l.map Job.ext) = 0 := by
+  induction l with
+  | nil => rfl
+  | cons a l ih => simp [nFull, ih]
+
+/-- Everything `resolveAll` guarantees, for EVERY list of entries (cyclic, self-referential, dangling, …). -/
+theorem resolveAll_inv (H : Hash) (valid : Obj → Bool) (ext : Bytes → Option (Nat × Bytes)) (entries : List Entry) :
+    (resolveAll H valid ext entries).status ≠ .failed .other ∧
+    (∀ o ∈ (resolveAll H valid ext entries).objs, HashOK H o) ∧
+    (resolveAll H valid ext entries).objs.length ≤ entries.length ∧
+    ((resolveAll H valid ext entries).status = .done → (resolveAll H valid ext entries).objs.length = entries.length) := by
+  have hsplit := filter_split isFull entries
+  have hjobs1 : ∀ j ∈ (entries.filter isFull).map Job.full, ∀ e, j = .full e → isFull e = true := by
+    intro j hj e he
+    simp only [List.mem_map, List.mem_filter] at hj
+    obtain ⟨e', ⟨_, hf⟩, rfl⟩ := hj
+    simp only [Job.full.injEq] at he
+    subst he
+    exact hf
+  have h1 := runJobs_inv H valid ext entries.length ((entries.filter isFull).map Job.full)
+    (entries.filter fun e => !isFull e) []
+    (by rw [nFull_map_full]; omega) hjobs1
+    (by intro e he; simpa using (List.mem_filter.mp he).2)
+    (by intro o ho; simp at ho)
+  rw [nFull_map_full] at h1
+  simp only [List.length_nil, Nat.zero_add] at h1
+  unfold resolveAll
+  simp only
+  generalize runJobs H valid ext entries.length ((entries.filter isFull).map Job.full)
+    (entries.filter fun e => !isFull e) [] = r1 at h1
+  obtain ⟨acc, pending, err⟩ := r1
+  simp only at h1
+  obtain ⟨a1, a2, a3, am, a4, a5⟩ := h1
+  cases err with
+  | some e =>
+    simp only
+    refine ⟨?_, a2, by omega, by intro h; cases h⟩
+    intro hc
+    simp only [Status.failed.injEq] at hc
+    subst hc
+    exact a1 rfl
+  | none =>
+    simp only
+    have hlen := a5 rfl
+    have h2 := runJobs_inv H valid ext entries.length ((refNames pending).map Job.ext) pending acc
+      (by rw [nFull_map_ext]; omega)
+      (by
+        intro j hj e he
+        simp only [List.mem_map] at hj
+        obtain ⟨n, _, rfl⟩ := hj
+        cases he)
+      a3 a2
+    rw [nFull_map_ext] at h2
+    generalize runJobs H valid ext entries.length ((refNames pending).map Job.ext) pending acc = r2 at h2
+    obtain ⟨acc', pending', err'⟩ := r2
+    simp only at h2
+    obtain ⟨b1, b2, b3, bm, b4, b5⟩ := h2
+    cases err' with
+    | some e =>
+      simp only
+      refine ⟨?_, b2, by omega, by intro h; cases h⟩
+      intro hc
+      simp only [Status.failed.injEq] at hc
+      subst hc
+      exact b1 rfl
+    | none =>
+      simp only
+      have hlen' := b5 rfl
+      split
+      · refine ⟨by simp, b2, by show acc'.length ≤ _; omega, by intro h; cases h⟩
+      · split
+        · refine ⟨by simp, b2, by show acc'.length ≤ _; omega, by intro h; cases h⟩
+        · rename_i _ hemp
+          refine ⟨by simp, b2, by show acc'.length ≤ _; omega, ?_⟩
+          intro _
+          have : pending' = [] := by simpa using hemp
+          subst this
+          simp only [List.length_nil] at hlen'
+          show acc'.length = _
+          omega
+
+
+/-- **ingested_objects_hash_to_name.**  Whatever the input bytes — damaged, crafted, cyclic — every object
+forward chaining yields carries as its name the hash of `"<type> <len>\0" ++ data`, for an ARBITRARY hash `H`
+(no property of SHA-1 is used).  REF deltas are only ever applied to a base that was yielded under the name
+they ask for, or that the store holds under that name. -/
+theorem ingested_objects_hash_to_name (H : Hash) (valid : Obj → Bool) (ext : Bytes → Option (Nat × Bytes))
+    (entries : List Entry) : ∀ o ∈ (resolveAll H valid ext entries).objs, HashOK H o :=
+  (resolveAll_inv H valid ext entries).2.1
+
+/-- **chain_iterator_terminates.**  For EVERY list of entries — self-references, cycles of REF deltas, OFS
+deltas pointing anywhere, bases that do not exist — forward chaining ends within its budget of one step per
+entry (the out-of-fuel outcome `.failed .other` is unreachable), yields each entry at most once, and ends
+either with every entry resolved (`done` ⇒ as many objects as entries) or with an explicit report
+(`unresolved names` = UnresolvedDeltas, `.failed e` = the error that stopped it). -/
+theorem chain_iterator_terminates (H : Hash) (valid : Obj → Bool) (ext : Bytes → Option (Nat × Bytes))
+    (entries : List Entry) :
+    (resolveAll H valid ext entries).status ≠ .failed .other ∧
+    (resolveAll H valid ext entries).objs.length ≤ entries.length ∧
+    ((resolveAll H valid ext entries).status = .done → (resolveAll H valid ext entries).objs.length = entries.length) :=
+  ⟨(resolveAll_inv H valid ext entries).1, (resolveAll_inv H valid ext entries).2.2.1, (resolveAll_inv H valid ext entries).2.2.2⟩
+
+/-! ### toy instantiation of the parameters (non-vacuity examples and `decide` witnesses) -/
+
+/-- "zlib": one length byte `n`, then `n` bytes of output. -/
+def toyInflate : Inflate
+  | [] => none
+  | n :: rest => if n.toNat ≤ rest.length then some (rest.take n.toNat, rest.drop n.toNat) else none
+
+/-- "hash": twenty copies of one byte (0x3F = entry header "blob, 15 bytes"). -/
+def toyH : Hash := fun _ => List.replicate 20 0x3F
+
+def toyDeflate : Bytes → Bytes := fun d => UInt8.ofNat d.length :: d
+
+example : InflateShrinks toyInflate := by
+  intro i o r h
+  cases i with
+  | nil => simp [toyInflate] at h
+  | cons n rest =>
+    simp only [toyInflate] at h
+    split at h
+    · simp only [Option.some.injEq, Prod.mk.injEq] at h
+      obtain ⟨_, rfl⟩ := h
+      simp only [List.length_drop, List.length_cons]; omega
+    · cases h
+
+/-- A two-entry pack (blob "ab", OFS delta turning it into "abc") with its trailer: header, entries at offsets
+12 and 16, 20 trailer bytes. -/
+def toyPack : Bytes :=
+  [80, 65, 67, 75, 0, 0, 0, 2, 0, 0, 0, 2,          -- PACK, version 2, 2 objects
+   0x32, 2, 97, 98,                                  -- blob, size 2: "ab"
+   0x66, 4, 6, 2, 3, 0x90, 2, 1, 99] ++              -- OFS_DELTA size 6, offset 4: src 2, dst 3, copy 0..2, insert "c"
+  List.replicate 20 0x3F
+
+example : (parsePackStream toyInflate toyH toyPack).toOption
+    = some [⟨12, .full 3 [97, 98]⟩, ⟨16, .ofs 4 [2, 3, 0x90, 2, 1, 99]⟩] := by decide
+
+example : (resolveAll toyH (fun _ => true) (fun _ => none)
+      [⟨12, .full 3 [97, 98]⟩, ⟨16, .ofs 4 [2, 3, 0x90, 2, 1, 99]⟩]).status = .done ∧
+    (resolveAll toyH (fun _ => true) (fun _ => none)
+      [⟨12, .full 3 [97, 98]⟩, ⟨16, .ofs 4 [2, 3, 0x90, 2, 1, 99]⟩]).objs.map (·.data) = [[97, 98], [97, 98, 99]] := by decide
+
+/-- Cycles and self-references in forward chaining: two REF deltas naming each other, one OFS delta whose
+offset is its own position, one REF delta to a missing name — reported as unresolved, nothing yielded. -/
+example : (resolveAll toyH (fun _ => true) (fun _ => none)
+      [⟨12, .ref [1] [0]⟩, ⟨40, .ref [2] [0]⟩, ⟨70, .ofs 0 [0]⟩, ⟨90, .ref [7] [0]⟩]).status
+    = .unresolved [[1], [2], [7]] := by decide
+
+/-! ## 3. random access (`Pack.get_raw`): terminates when bases precede; loops on a REF cycle (F4) -/
+
+theorem resolveAt_app_ne_none {d : Bytes} {r : Option (Except Err (Nat × Bytes))} (h : r ≠ none) :
+    (r.map fun x => match x with
+      | .error e => Except.error e
+      | .ok (ty, base) => match Delta.applyDelta base d with
+        | .error _ => Except.error Err.delta
+        | .ok data => (Except.ok (ty, data) : Except Err (Nat × Bytes))) ≠ none := by
+  cases r with
+  | none => exact absurd rfl h
+  | some x => simp
+
+/-- **random_access_terminates_partial.**  If every delta's base lies strictly before it — OFS offsets are
+≥ 1 (what `parse_ofs_pos` gives for parsed entries) and the index maps the base name of every REF delta to a
+smaller offset ("bases precede") — the walk of `resolve_object` from offset `off` returns or raises within
+`off + 1` steps.  The hypothesis on the index is what the proof forced: it fails for an index the attacker
+controls, see `ref_cycle_counterexample`. -/
+theorem random_access_terminates_partial (entryAt : Nat → Except Err Kind) (idx : Bytes → Option Nat)
+    (ext : Bytes → Option (Nat × Bytes))
+    (hofs : ∀ off k d, entryAt off = .ok (.ofs k d) → 1 ≤ k)
+    (href : ∀ off name d o, entryAt off = .ok (.ref name d) → idx name = some o → o < off) :
+    ∀ (off fuel : Nat), off < fuel → resolveAt entryAt idx ext fuel off ≠ none := by
+  intro off
+  induction off using Nat.strongRecOn with
+  | _ off ih =>
+    intro fuel hf
+    cases fuel with
+    | zero => omega
+    | succ fuel =>
+      simp only [resolveAt]
+      split
+      · simp
+      · simp
+      · rename_i k d hk
+        split
+        · simp
+        · have hk1 := hofs off k d hk
+          exact resolveAt_app_ne_none (ih (off - k) (by omega) fuel (by omega))
+      · rename_i name d hk
+        split
+        · rename_i o ho
+          have hlt := href off name d o hk ho
+          split
+          · split <;> simp
+          · split
+            · simp
+            · exact resolveAt_app_ne_none (ih o hlt fuel (by omega))
+        · split <;> simp
+
+/-- Non-vacuity: a chain REF → OFS → full satisfies the hypotheses and resolves. -/
+example :
+    let entryAt : Nat → Except Err Kind := fun off =>
+      if off = 12 then .ok (.full 3 [97, 98]) else if off = 16 then .ok (.ofs 4 [2, 3, 0x90, 2, 1, 99])
+      else if off = 30 then .ok (.ref [5] [3, 3, 0x90, 3]) else .error .format
+    let idx : Bytes → Option Nat := fun n => if n = [5] then some 16 else none
+    (resolveAt entryAt idx (fun _ => none) 31 30).map Except.toOption = some (some (3, [97, 98, 99])) := by decide
+
+/-- The two-entry REF cycle of finding F4: entry at 12 is based on the name the index puts at 53 and vice versa. -/
+def cycleEntryAt : Nat → Except Err Kind := fun off =>
+  if off = 12 then .ok (.ref [0xBB] [0]) else if off = 53 then .ok (.ref [0xAA] [0]) else .error .format
+
+def cycleIdx : Bytes → Option Nat := fun n =>
+  if n = [0xAA] then some 12 else if n = [0xBB] then some 53 else none
+
+/-- **ref_cycle_counterexample** (F4, confirmed on the real code: `Pack.get_raw` killed by the time limit).
+With ANY amount of fuel the as-coded walk is still running on the two-entry REF cycle: the only cycle check in
+`resolve_object` is "base offset == own offset". -/
+theorem ref_cycle_counterexample :
+    ∀ fuel, resolveAt cycleEntryAt cycleIdx (fun _ => none) fuel 12 = none ∧
+            resolveAt cycleEntryAt cycleIdx (fun _ => none) fuel 53 = none := by
+  intro fuel
+  induction fuel with
+  | zero => exact ⟨rfl, rfl⟩
+  | succ fuel ih =>
+    have hs : Gen.Ingest.selfRefChecked = true := rfl
+    constructor
+    · simp [resolveAt, cycleEntryAt, cycleIdx, hs, ih.2]
+    · simp [resolveAt, cycleEntryAt, cycleIdx, hs, ih.1]
+
+/-- The full statement "random access terminates for every pack and every index" … -/
+def random_access_terminates_Statement : Prop :=
+  ∀ (entryAt : Nat → Except Err Kind) (idx : Bytes → Option Nat) (ext : Bytes → Option (Nat × Bytes)) (off : Nat),
+    ∃ fuel, resolveAt entryAt idx ext fuel off ≠ none
+
+/-- … is FALSE for the code that exists. -/
+theorem random_access_terminates_false : ¬ random_access_terminates_Statement := by
+  intro h
+  obtain ⟨fuel, hf⟩ := h cycleEntryAt cycleIdx (fun _ => none) 12
+  exact hf (ref_cycle_counterexample fuel).1
+
+/-- Why `_decode_delta_base_offset` must reject 0 (`parse_ofs_pos`): an OFS delta with offset 0 is its own
+base and the walk never ends. -/
+theorem ofs_zero_would_loop (entryAt : Nat → Except Err Kind) (idx : Bytes → Option Nat)
+    (ext : Bytes → Option (Nat × Bytes)) (off : Nat) (d : Bytes) (h : entryAt off = .ok (.ofs 0 d)) :
+    ∀ fuel, resolveAt entryAt idx ext fuel off = none := by
+  intro fuel
+  induction fuel with
+  | zero => rfl
+  | succ fuel ih => simp [resolveAt, h, ih]
+
+/-! ## 4. a failed ingest is invisible — where it is, and the three places where it is not -/
+
+def StoreOK (H : Hash) (s : Store) : Prop := ∀ o ∈ s, HashOK H o
+
+/-- The property's second sentence for an ingest function. -/
+def failed_ingest_invisible_Statement (ingest : Store → Bytes → Store × Option Err) : Prop :=
+  ∀ s inp e, (ingest s inp).2 = some e → (ingest s inp).1 = s
+
+theorem diskFirstPass_objs {inflate : Inflate} {H : Hash} {p : Path} {s : Store} {inp file : Bytes}
+    {objs : List Obj} {bases : List (Nat × Bytes)}
+    (h : diskFirstPass inflate H p s inp = .ok (some (file, objs, bases))) : ∀ o ∈ objs, HashOK H o := by
+  unfold diskFirstPass at h
+  simp only at h
+  split at h
+  · cases h
+  · split at h
+    · cases h
+    · split at h
+      · cases h
+      · rename_i entries _ _
+        split at h
+        · simp only [Except.ok.injEq, Option.some.injEq, Prod.mk.injEq] at h
+          obtain ⟨_, rfl, _⟩ := h
+          exact ingested_objects_hash_to_name H _ _ entries
+        · cases h
+
+/-- **Stored objects hash to their names (disk).**  Whatever bytes are ingested through either path, and
+whether the ingest succeeds or fails, every object visible afterwards — including the ones the skipped
+rollback leaves behind — is stored under the hash of its header ++ data. -/
+theorem disk_store_names_are_hashes (inflate : Inflate) (H : Hash) (deflate : Bytes → Bytes) (valid : Obj → Bool)
+    (p : Path) (s : Store) (inp : Bytes) (hs : StoreOK H s) :
+    StoreOK H (ingestDisk inflate H deflate valid p s inp).1 := by
+  unfold ingestDisk
+  split
+  · exact hs
+  · exact hs
+  · rename_i file objs bases hfp
+    have hobjs := diskFirstPass_objs hfp
+    have happ : StoreOK H (s ++ objs) := by
+      intro o ho
+      rcases List.mem_append.mp ho with h | h
+      · exact hs o h
+      · exact hobjs o h
+    unfold completePack
+    split
+    · split
+      · exact hs
+      · exact happ
+    · exact hs
+    · split
+      · exact happ
+      · exact hs
+
+/-- The same for the memory store (including the objects a failed ingest leaves behind). -/
+theorem mem_store_names_are_hashes (inflate : Inflate) (H : Hash) (valid : Obj → Bool)
+    (p : Path) (s : Store) (inp : Bytes) (hs : StoreOK H s) :
+    StoreOK H (ingestMem inflate H valid p s inp).1 := by
+  have happ : ∀ entries, StoreOK H (s ++ (resolveAll H valid s.lookup entries).objs) := by
+    intro entries o ho
+    rcases List.mem_append.mp ho with h | h
+    · exact hs o h
+    · exact ingested_objects_hash_to_name H valid s.lookup entries o h
+  unfold ingestMem
+  simp only
+  split
+  · exact hs
+  · split
+    · exact hs
+    · split
+      · exact hs
+      · split
+        · exact hs
+        · split
+          · exact hs
+          · split
+            · exact hs
+            · split
+              · exact happ _
+              · split
+                · exact happ _
+                · exact hs
+
+/-- **failed_ingest_invisible (disk), as far as the code that exists allows.**  A failing disk ingest returns
+the store unchanged — unless it fails with the BufferError (`.other`) that `final_pack.close()` raises inside
+the rollback handler of `_complete_pack`.  The hypothesis `e ≠ .other` is what the proof forced; see
+`rollback_skipped_counterexample`. -/
+theorem failed_ingest_invisible_partial (inflate : Inflate) (H : Hash) (deflate : Bytes → Bytes) (valid : Obj → Bool)
+    (p : Path) (s : Store) (inp : Bytes) (e : Err)
+    (h : (ingestDisk inflate H deflate valid p s inp).2 = some e) (he : e ≠ .other) :
+    (ingestDisk inflate H deflate valid p s inp).1 = s := by
+  have hg : Gen.Ingest.rollbackCloseGuarded = false := rfl
+  unfold ingestDisk at h ⊢
+  split
+  · rfl
+  · rfl
+  · rename_i file objs bases hfp
+    simp only [hfp] at h
+    unfold completePack at h ⊢
+    split
+    · rename_i hz
+      simp only [hz, hg, Bool.false_eq_true, if_false, Option.some.injEq] at h
+      exact absurd h.symm he
+    · rfl
+    · rename_i es r hz
+      simp only [hz] at h
+      split
+      · rename_i hd
+        simp only [hd] at h
+        cases h
+      · rfl
+
+/-- Non-vacuity: a pack with a wrong trailer fails (checksum) through the thin path and leaves the store as it was. -/
+example : ingestDisk toyInflate toyH toyDeflate (fun _ => true) .thin [] (toyPack.take 30 ++ List.replicate 15 0)
+    = ([], some .checksum) := by decide
+
+/-- A pack whose trailer lost 17 of its 20 bytes, fed through `add_pack().commit` (which never verifies the
+trailer): 32 bytes — header, one 15-byte blob, 3 trailer bytes. -/
+def truncatedTrailerPack : Bytes :=
+  [80, 65, 67, 75, 0, 0, 0, 2, 0, 0, 0, 1, 0x3F, 15] ++ List.replicate 15 97 ++ [9, 9, 9]
+
+/-- **rollback_skipped_counterexample** (confirmed on the real code).  `extend_pack` writes the new trailer over
+the last 20 bytes of the file — the end of the blob — the validation of the installed pack fails inside zlib,
+`final_pack.close()` raises BufferError and the `os.remove` calls are skipped: the ingest FAILS and the blob is
+visible afterwards. -/
+theorem rollback_skipped_counterexample :
+    (ingestDisk toyInflate toyH toyDeflate (fun _ => true) .addPack [] truncatedTrailerPack).2 = some .other ∧
+    (ingestDisk toyInflate toyH toyDeflate (fun _ => true) .addPack [] truncatedTrailerPack).1.map (·.data)
+      = [List.replicate 15 97] := by decide
+
+theorem failed_ingest_invisible_disk_false :
+    ¬ failed_ingest_invisible_Statement (ingestDisk toyInflate toyH toyDeflate (fun _ => true) .addPack) := by
+  intro h
+  have := h [] truncatedTrailerPack .other rollback_skipped_counterexample.1
+  have h2 := rollback_skipped_counterexample.2
+  rw [this] at h2
+  simp at h2
+
+/-- A blob followed by a REF delta whose base exists nowhere, with a correct trailer. -/
+def blobThenMissingRef : Bytes :=
+  [80, 65, 67, 75, 0, 0, 0, 2, 0, 0, 0, 2, 0x32, 2, 97, 98, 0x71] ++ List.replicate 20 0x11 ++ [1, 0] ++
+  List.replicate 20 0x3F
+
+/-- **mem_partial_ingest_counterexample** (confirmed on the real code).  `MemoryObjectStore` adds objects while
+the inflater is drained: the ingest FAILS (UnresolvedDeltas) and the blob yielded before the failure stays. -/
+theorem mem_partial_ingest_counterexample :
+    (ingestMem toyInflate toyH (fun _ => true) .addPack [] blobThenMissingRef).2 = some .key ∧
+    (ingestMem toyInflate toyH (fun _ => true) .addPack [] blobThenMissingRef).1.map (·.data) = [[97, 98]] := by decide
+
+theorem failed_ingest_invisible_mem_false :
+    ¬ failed_ingest_invisible_Statement (ingestMem toyInflate toyH (fun _ => true) .addPack) := by
+  intro h
+  have := h [] blobThenMissingRef .key mem_partial_ingest_counterexample.1
+  have h2 := mem_partial_ingest_counterexample.2
+  rw [this] at h2
+  simp at h2
+
+/-- The same input through the disk store fails too and leaves nothing behind. -/
+example : ingestDisk toyInflate toyH toyDeflate (fun _ => true) .addPack [] blobThenMissingRef = ([], some .key) := by decide
+
+/-! ## 5. the file-system steps of the disk paths (generated flags decide which steps exist) -/
+
+def allPrefixes (ops : List FsOp) : List (List FsOp) := (List.range (ops.length + 1)).map ops.take
+
+def allPrograms : List (List FsOp) :=
+  [diskProgram .thin .never, diskProgram .thin .copy, diskProgram .thin .validate, diskProgram .thin .validateZlib,
+   diskProgram .addPack .never, diskProgram .addPack .copy, diskProgram .addPack .validate,
+   diskProgram .addPack .validateZlib, abortProgram]
+
+/-- **No partially written pack is ever used.**  In every crash state (every prefix of every program of either
+path, successful or failing) the new pack is visible — `.pack` and `.idx` both present — only when the pack
+file is complete: it is renamed into place after the last write and the index appears by one atomic rename. -/
+theorem fs_visible_only_when_complete :
+    allPrograms.all (fun prog => (allPrefixes prog).all fun pre =>
+      let fs := runOps {} pre
+      !fs.visible || fs.packComplete) = true := by decide
+
+/-- **Failed ingests end invisible** when the failure is detected before `_complete_pack` or by a validation
+error raised outside zlib, and an aborted `add_pack` leaves nothing at all. -/
+theorem fs_failed_ingest_not_visible :
+    (runOps {} (diskProgram .thin .copy)).visible = false ∧ (runOps {} (diskProgram .addPack .copy)).visible = false ∧
+    (runOps {} (diskProgram .thin .validate)).visible = false ∧ (runOps {} (diskProgram .addPack .validate)).visible = false ∧
+    runOps {} (diskProgram .thin .validate) = {} ∧ runOps {} (diskProgram .addPack .validate) = {} ∧
+    runOps {} abortProgram = {} := by decide
+
+/-- **visible_before_validation_witness** (F13).  The pack of an ingest that FAILS its post-install validation
+is visible in the crash state after the index rename (prefix of length 5), before the rollback. -/
+theorem visible_before_validation_witness :
+    (runOps {} ((diskProgram .thin .validate).take 5)).visible = true ∧
+    (runOps {} ((diskProgram .addPack .validate).take 5)).visible = true := by decide
+
+/-- The rollback that `final_pack.close()` cuts short: the program of that failure ends VISIBLE. -/
+theorem fs_rollback_skipped_witness :
+    (runOps {} (diskProgram .addPack .validateZlib)).visible = true ∧
+    (runOps {} (diskProgram .thin .validateZlib)).visible = true := by decide
+
+/-- Stray files (not visible as objects): a failed `add_thin_pack` / `add_pack().commit` keeps its temp file. -/
+theorem fs_tmp_leak_witness :
+    (runOps {} (diskProgram .thin .copy)).tmp = true ∧ (runOps {} (diskProgram .addPack .copy)).tmp = true := by decide
+
+/-! ## 6. guards the model relies on are present in the source (regenerated every run) -/
+
+/-- The per-entry inflate is capped at declared size + 1 and the result must have exactly the declared size
+(`read_zlib_chunks(_at)`); the stream trailer is compared; REF self-reference is checked in random access. -/
+theorem guards_present :
+    Gen.Ingest.zlibBounded = true ∧ Gen.Ingest.zlibSizeChecked = true ∧ Gen.Ingest.trailerVerified = true ∧
+    Gen.Ingest.ofsZeroRejected = true ∧ Gen.Ingest.selfRefChecked = true ∧ Gen.Ingest.memChecksTrailer = true ∧
+    Gen.Ingest.rollbackRemovesPack = true ∧ Gen.Ingest.rollbackRemovesIdx = true ∧ Gen.Ingest.abortRemovesTmp = true := by
+  decide
 
 end Dulwich.Props.C04
